@@ -5,11 +5,6 @@ Require Import OV.Base.Bytes OV.Base.Py OV.Base.PyInt OV.Base.Str OV.Base.Insp_S
 Require Import OV.Model.Insp_Vmdk OV.Model.Insp_All OV.Model.C02.
 Open Scope N_scope.
 
-(* the descriptor text of a descriptor-only file: the bytes up to the first NUL, lower-cased *)
-Definition up_to_nul (b : bytes) : bytes :=
-  match find [0] b with Some i => btake i b | None => b end.
-Definition text_of (b : bytes) : str := lower_ascii (up_to_nul b).
-
 (* What the property demands of a VMDK that has no sparse header (descriptor-only file), for all chunkings:
    if it is accepted, no extent line of its descriptor contains a '/' and every line is recognised. *)
 Definition C02_vmdk_text_full_statement : Prop :=
